@@ -156,6 +156,56 @@ class Program:
     def find_adts(self, pred):
         return [a for a in self.facts.adts.values() if pred(a)]
 
+    def struct_inits(self):
+        """(adt path, field) -> [(body, term)] for every construction site of a struct of the
+        crate"""
+        si_ = getattr(self, "_struct_inits", None)
+        if si_ is not None:
+            return si_
+        si_ = {}
+        for b in self.bodies:
+            bp = self.bp(b)
+            for bi in self.cfg(b).nodes():
+                for si, st in enumerate(b.blocks[bi]["stmts"]):
+                    if st["k"] != "assign" or st["rv"]["k"] != "agg" or st["rv"].get("agg") != "adt":
+                        continue
+                    adt = st["rv"].get("adt")
+                    if adt not in self.facts.adts or self.facts.adts[adt].get("kind") != "Struct":
+                        continue
+                    for f, o in zip(st["rv"].get("fields") or [], st["rv"]["ops"]):
+                        si_.setdefault((adt, f), []).append((b, bp.operand_term(o, bi, si)))
+        self._struct_inits = si_
+        return si_
+
+    def alias_fields(self):
+        """(adt path, field) pairs that are only ever initialised with (a clone of) a field of
+        another value - `SubscriberSubscription { subscribers: self.subscribers.clone(), .. }`:
+        handles to a lock another struct owns, not locks of their own.  Maps to the name of the
+        field they alias."""
+        al = getattr(self, "_alias_fields", None)
+        if al is not None:
+            return al
+        from .prov import strip_wrap, strip_clone
+        inits = {}
+        for b in self.bodies:
+            bp = self.bp(b)
+            for bi in self.cfg(b).nodes():
+                for si, st in enumerate(b.blocks[bi]["stmts"]):
+                    if st["k"] != "assign" or st["rv"]["k"] != "agg" or st["rv"].get("agg") != "adt":
+                        continue
+                    adt = st["rv"].get("adt")
+                    if adt not in self.facts.adts or self.facts.adts[adt].get("kind") != "Struct":
+                        continue
+                    for f, o in zip(st["rv"].get("fields") or [], st["rv"]["ops"]):
+                        t = strip_clone(strip_wrap(bp.operand_term(o, bi, si)))
+                        inits.setdefault((adt, f), []).append(t)
+        al = {}
+        for (adt, f), ts in inits.items():
+            if ts and all(t[0] == "field" for t in ts) and len({t[2] for t in ts}) == 1:
+                al[(adt, f)] = ts[0][2]
+        self._alias_fields = al
+        return al
+
     def field_owner(self, field_name, ty_contains=None):
         out = []
         for a in self.facts.adts.values():
